@@ -168,23 +168,30 @@ VALUE_KINDS = ("replace", "mapstr", "mapstr_n", "case_lower", "case_upper", "set
 
 
 def rewrite_item(t, key, val):
-    """one map entry -> Det JSON fragment list to AND: each element is ('map', key, values) or ('or', [(key, values)...]) or None (dropped)"""
+    """one map entry -> fragments to AND: ('map', key, values) | ('or', [(key, values)...]); [] = dropped; None = not expressible"""
     k = t["kind"]
     field, mods = split_key(key)
     vals = val if isinstance(val, list) else [val]
     ms = "".join("|" + m for m in mods)
-    if not in_scope(t, field):
+    is_ref = "fieldref" in mods
+    # a field name condition matches a detection item through its field *or* through a field it references
+    item_in = in_scope(t, field) or (is_ref and any(in_scope(t, v) for v in vals))
+    if not item_in:
         return [("map", key, vals)]
     if k == "drop":
         return []
-    if k in VALUE_KINDS and "fieldref" not in mods and "re" not in mods:
+    if k in VALUE_KINDS:
+        if "re" in mods or (is_ref and k != "setvalue"):
+            return [("map", key, vals)]
         if "contains" in mods or "startswith" in mods or "endswith" in mods:
-            # value transformations see the value *after* modifiers (with the wildcards): documented as acting on the string form
-            return None
+            return None      # value transformations see the value after the modifiers added wildcards: not expressible at source level here
         new = []
         for v in vals:
             new += rewrite_value(t, v, mods)
+        if k == "setvalue":
+            key = (field or "") + "".join("|" + m for m in mods if m not in ("cased", "fieldref"))     # the configured value replaces value *and* type
         return [("map", key, new)]
+
     def rn(f):
         if f is None:
             return [None]
@@ -202,13 +209,12 @@ def rewrite_item(t, key, val):
             return [{"fieldA": "mappedA"}.get(f, f) + ".s"]
         return [f]
     if k in ("map11", "map1n", "prefix", "suffix", "prefixmap", "nest"):
-        if "fieldref" in mods:
-            # referenced field names are renamed as well; a one-to-many target yields one reference per name
+        if is_ref:
             newvals = []
             for v in vals:
-                newvals += [x for x in rn(v)] if in_scope(t, v) else [v]
+                newvals += rn(v) if in_scope(t, v) else [v]
             vals = newvals
-        targets = rn(field)
+        targets = rn(field) if in_scope(t, field) else [field]
         if len(targets) == 1:
             return [("map", (targets[0] or "") + ms, vals)]
         return [("or", [((x or "") + ms, vals) for x in targets])]
@@ -240,6 +246,8 @@ def rewrite_det(t, d):
         return {"all": ([{"map": flat}] if flat else []) + parts}
     if isinstance(d, list) and all(not isinstance(x, (dict, list)) for x in d) or not isinstance(d, (dict, list)):
         vals = d if isinstance(d, list) else [d]
+        if k == "drop" and in_scope(t, None):
+            return "EMPTY"
         if k == "kw2field":
             # keyword -> field with substring semantics
             return {"map": [[cps("msg|contains"), pv(vals)]]} if all(isinstance(v, str) for v in vals) else None
@@ -272,14 +280,14 @@ def rewrite_rule(case):
             return None          # a detection emptied by dropping: its operand vanishes (C02 'modelled, not judged')
         dets[nm] = r
     if k == "addcond":
-        dets["added"] = {"map": [[cps("idx"), pv(["main"])], [cps("src"), pv(["a", "b"])]]}
-        cond = f"added and ({cond})"
+        dets["_added"] = {"map": [[cps("idx"), pv(["main"])], [cps("src"), pv(["a", "b"])]]}
+        cond = f"_added and ({cond})"
     elif k == "addcond_neg":
-        dets["added"] = {"map": [[cps("idx"), pv(["excluded"])]]}
-        cond = f"not added and ({cond})"
+        dets["_added"] = {"map": [[cps("idx"), pv(["excluded"])]]}
+        cond = f"not _added and ({cond})"
     elif k == "addcond_tpl":
-        dets["added"] = {"map": [[cps("idx"), pv(["cat-prod"])]]}
-        cond = f"added and ({cond})"
+        dets["_added"] = {"map": [[cps("idx"), pv(["cat-prod"])]]}
+        cond = f"_added and ({cond})"
     return dets, cond
 
 
@@ -322,12 +330,20 @@ def _d3(case):
     return case["t"]["kind"] in ("replace", "replace_id", "case_lower", "case_upper") and re.search(r"\\\\\\\\[*?\\\\]|\\\\\\\\$", repr(case["rule"]["dets"])) is not None
 
 
+def _has_number(d):
+    if isinstance(d, dict):
+        return any(_has_number(v) for v in d.values())
+    if isinstance(d, list):
+        return any(_has_number(v) for v in d)
+    return isinstance(d, (int, float)) and not isinstance(d, bool)
+
+
 def judge(case, impl, reply):
     io = impl["outcome"]
     k = case["t"]["kind"]
     key = (case["rule"], case["t"])
     tags = [f"kind:{k}", f"impl:{io.split(':')[0]}", f"scope:{case['t']['scope'][0] if case['t']['scope'] else 'none'}"]
-    fid = "D3" if _d3(case) else None
+    fid = "D3" if _d3(case) else ("D35" if (k in ("replace", "replace_id") and _has_number(case["rule"]["dets"])) else None)
     if io.startswith("other:"):
         return Verdict("violation", f"{io}: {impl.get('msg')} for transformation {t_yaml(case['t'])} on {case['rule']['dets']}", True, key, finding=fid, tags=tuple(tags))
     if io != "ok":
